@@ -19,3 +19,35 @@ package keeper
 //@ loop 4 invariant depth: param.ConfirmationNumber >= 1
 //@ loop 5 invariant min: param.MinDepositAmount >= 1000
 //@ modifies st.bitcoin.Params, st.bitcoin.Withdrawals, st.bitcoin.EthTxQueue
+
+// ---- voted handlers ---------------------------------------------------------------
+// guard=VerifyProposal: every state write of the handler comes after VerifyProposal returned nil
+// ("a proposal without a quorum changes no state at all", before the transaction roll-back is even needed).
+
+//@ func (msgServer).NewBlockHashes
+//@ property C01 C02 C06
+//@ opt guard=VerifyProposal
+//@ requires counters: st.bitcoin.BlockTip < 9223372036854775808 && st.relayer.Sequence < 9223372036854775808
+//@ requires group_bound: len(st.relayer.Relayer.Voters) < 4294967296
+//@ ensures seq: err == nil ==> st.relayer.Sequence == old(st.relayer.Sequence) + 1
+//@ ensures randao: err == nil ==> st.relayer.Randao == sha256(bcat(old(st.relayer.Randao), req.Vote.Signature))
+//@ ensures quorum: err == nil ==> req.Proposer == old(st.relayer.Relayer.Proposer) && req.Vote.Sequence == old(st.relayer.Sequence) && req.Vote.Epoch == old(st.relayer.Relayer.Epoch)
+//@           && bitcount(req.Vote.Voters) + 1 >= (2*(len(old(st.relayer.Relayer.Voters))+1) + 2) / 3
+//@           && countTo(req.Vote.Voters, len(old(st.relayer.Relayer.Voters))) == bitcount(req.Vote.Voters)
+//@ ensures bls: err == nil ==> blsFastAggVerify(
+//@           collect(req.Vote.Voters, old(st.relayer.Relayer.Voters), mapval(st.relayer.Voters), st.relayer.Voters[old(st.relayer.Relayer.Proposer)].VoteKey, len(old(st.relayer.Relayer.Voters))),
+//@           votesigndoc(chainid(), old(st.relayer.Sequence), old(st.relayer.Relayer.Epoch), "Bitcoin/NewBlocks", old(st.relayer.Relayer.Proposer),
+//@                       bcat(bcat(bzeros(8), le64(req.StartBlockNumber)), bflat(arr(req.BlockHash), off(req.BlockHash), len(req.BlockHash)))),
+//@           req.Vote.Signature)
+//@ ensures start: err == nil ==> req.StartBlockNumber == old(st.bitcoin.BlockTip) + 1
+//@ ensures tip: err == nil ==> st.bitcoin.BlockTip == old(st.bitcoin.BlockTip) + len(req.BlockHash)
+//@ ensures stored: err == nil ==> forall(h, old(st.bitcoin.BlockTip) + 1, st.bitcoin.BlockTip + 1, has(st.bitcoin.BlockHashes, h) && st.bitcoin.BlockHashes[h] == req.BlockHash[h - old(st.bitcoin.BlockTip) - 1])
+//@ ensures append_only: err == nil ==> forall(h, 0, old(st.bitcoin.BlockTip) + 1, has(st.bitcoin.BlockHashes, h) == old(has(st.bitcoin.BlockHashes, h)) && st.bitcoin.BlockHashes[h] == old(st.bitcoin.BlockHashes[h]))
+//@ ensures nothing_above: err == nil ==> forall(h, st.bitcoin.BlockTip + 1, 18446744073709551616, has(st.bitcoin.BlockHashes, h) == old(has(st.bitcoin.BlockHashes, h)))
+//@ loop 0 invariant idx: -1 <= rangeindex && rangeindex < len(req.BlockHash)
+//@ loop 0 invariant height: parentHeight == old(st.bitcoin.BlockTip) + rangeindex + 1
+//@ loop 0 invariant stored: forall(h, old(st.bitcoin.BlockTip) + 1, parentHeight + 1, has(st.bitcoin.BlockHashes, h) && st.bitcoin.BlockHashes[h] == req.BlockHash[h - old(st.bitcoin.BlockTip) - 1])
+//@ loop 0 invariant below: forall(h, 0, old(st.bitcoin.BlockTip) + 1, has(st.bitcoin.BlockHashes, h) == old(has(st.bitcoin.BlockHashes, h)) && st.bitcoin.BlockHashes[h] == old(st.bitcoin.BlockHashes[h]))
+//@ loop 0 invariant above: forall(h, parentHeight + 1, 18446744073709551616, has(st.bitcoin.BlockHashes, h) == old(has(st.bitcoin.BlockHashes, h)))
+//@ loop 0 decreases len(req.BlockHash) - rangeindex
+//@ modifies st.bitcoin.BlockHashes, st.bitcoin.BlockTip, st.relayer.Sequence, st.relayer.Randao, st.relayer.Relayer
